@@ -37,7 +37,11 @@ func (g *gen) script(nc, self, to, lead int, size int) string {
 				a = append(a, fmt.Sprintf("W%dx%d", r.Intn(nc), 1+r.Intn(6)))
 				g.h.Count("act:worker-completes")
 			} else {
-				a = append(a, "r")
+				if r.Intn(12) == 0 {
+					a = append(a, g.sized("r"))
+				} else {
+					a = append(a, "r")
+				}
 				switch {
 				case i == 0:
 					g.h.Count("resp:first")
@@ -55,7 +59,11 @@ func (g *gen) script(nc, self, to, lead int, size int) string {
 		}
 		switch x := r.Intn(20); {
 		case x < 9:
-			a = append(a, fmt.Sprintf("p%d", tgt))
+			if r.Intn(15) == 0 {
+				a = append(a, g.sized(fmt.Sprintf("p%d", tgt)))
+			} else {
+				a = append(a, fmt.Sprintf("p%d", tgt))
+			}
 			g.h.Count("act:push")
 		case x < 12:
 			a = append(a, fmt.Sprintf("P%dx%d", tgt, 2+r.Intn(30)))
@@ -116,6 +124,15 @@ func (g *gen) sweep() []string {
 			}
 		}
 	}
+	for _, to := range []int{0, 1} {
+		for _, big := range []int{4095, 4096, 4097, 8192, 65536} {
+			g.h.Count("sweep:payload-size")
+			ops = append(ops, "reset n=2 slow=1", "stall c=0",
+				fmt.Sprintf("req c=0 to=%d r=1/p0,p0,p0b%d,p0,p0,rb%d,p0,p0b64,p0", to, big, big),
+				fmt.Sprintf("req c=1 to=%d r=1/p0,p1b%d,rb%d,p1", 2+to, big, big),
+				"go ms=3", "resume c=0", "go ms=3", "settle")
+		}
+	}
 	ops = append(ops, g.faultCase(1, 0, true, 1, false, 6)...)
 	ops = append(ops, g.faultCase(0, 2, true, 2, true, 9)...)
 	ops = append(ops, g.faultCase(2, 1, false, 1, false, 12)...)
@@ -172,12 +189,72 @@ func (g *gen) faultCase(to, to2 int, stalled bool, n int, partial bool, k int) [
 	return ops
 }
 
+var padSizes = []int{64, 1000, 4000, 4040, 4070, 4090, 4095, 4096, 4097, 5000, 8192, 65536}
+
+// sized draws a push / response action with a padded payload
+func (g *gen) sized(act string) string {
+	n := padSizes[g.h.R.Intn(len(padSizes))]
+	switch {
+	case n < 4000:
+		g.h.Count("size:<4k")
+	case n < 4200:
+		g.h.Count("size:~4k")
+	case n <= 8192:
+		g.h.Count("size:5-8k")
+	default:
+		g.h.Count("size:64k")
+	}
+	return fmt.Sprintf("%sb%d", act, n)
+}
+
+// payload sizes mixed within one burst — mostly small, some around 4 KB, 8 KB,
+// 64 KB, for pushes AND the response — towards a client that is stalled (so
+// that a backlog waits in the send queue when the writer goes on) or reading
+func (g *gen) sizeCase(to, to2 int, stalled bool, k int) []string {
+	r := g.h.R
+	g.h.Count("case:payload-sizes")
+	g.nreq = map[int]int{}
+	ops := []string{"reset n=2 slow=1"}
+	if stalled {
+		ops = append(ops, "stall c=0")
+	}
+	var a []string
+	respAt := r.Intn(k + 1)
+	for i := 0; i <= k; i++ {
+		if i == respAt {
+			if r.Intn(2) == 0 {
+				a = append(a, g.sized("r"))
+			} else {
+				a = append(a, "r")
+			}
+			continue
+		}
+		switch r.Intn(5) {
+		case 0:
+			a = append(a, g.sized("p0"))
+		case 1:
+			a = append(a, fmt.Sprintf("P0x%d", 1+r.Intn(12)))
+		default:
+			a = append(a, "p0")
+		}
+	}
+	ops = append(ops, fmt.Sprintf("req c=0 to=%d r=%d/%s", to, g.id(0), strings.Join(a, ",")))
+	ops = append(ops, fmt.Sprintf("req c=1 to=%d r=%d/p0,%s,p1,%s,p0,p1", to2, g.id(1), g.sized("p0"), g.sized("r")))
+	if stalled {
+		ops = append(ops, "go ms=3", "resume c=0")
+	}
+	ops = append(ops, "go ms=5", "settle")
+	return ops
+}
+
 func (g *gen) genCase() []string {
 	r := g.h.R
 	g.nreq = map[int]int{}
 	x := r.Intn(100)
 	thorough := g.h.Thorough()
 	switch {
+	case x >= 93 && x < 97:
+		return g.sizeCase(r.Intn(len(svcNames)), r.Intn(len(svcNames)), r.Intn(3) != 0, 4+r.Intn(30))
 	case x >= 97:
 		return g.faultCase(r.Intn(len(svcNames)), r.Intn(len(svcNames)), r.Intn(2) == 0, 1+r.Intn(3), r.Intn(2) == 0, 3+r.Intn(40))
 	case x < 2:
